@@ -4,17 +4,24 @@
 package workload
 
 import (
+	"bytes"
 	"fmt"
 	"hash/fnv"
 	"image"
 	"math/rand"
 	"os"
+	"regexp"
 	"strings"
 	"sync"
 
 	"github.com/tdewolff/canvas"
+	"github.com/tdewolff/canvas/renderers/pdf"
+	"github.com/tdewolff/canvas/renderers/ps"
 	"github.com/tdewolff/canvas/renderers/rasterizer"
+	"github.com/tdewolff/canvas/renderers/svg"
 )
+
+var reDate = regexp.MustCompile(`D:\d{14}[+\-Z0-9']*|%%CreationDate: [^\n]*`)
 
 // Job is one call on its own inputs; Run returns a canonical description of the result.
 type Job struct {
@@ -203,6 +210,69 @@ func Jobs(seed int64, n int, kinds string) []Job {
 						rt.WriteFace(family.Face(sizes[k], canvas.Black, sts[k]), texts[k])
 					}
 					return spans(rt.ToText(width, 0, al, canvas.Top, 0, 0))
+				}}
+			})
+		}
+		if strings.Contains(kinds, "t") {
+			// single lines through NewTextLine on the shared face, in both directions (the Hebrew letters have no glyph in the
+			// font; direction resolution and glyph order do not depend on that)
+			fam = append(fam, func() Job {
+				texts := []string{"abc def", "\u05d0\u05d1\u05d2 \u05d3\u05d4", "AV fi", "\u05e9\u05dc\u05d5\u05dd"}
+				txt := texts[r.Intn(len(texts))]
+				return Job{fmt.Sprintf("textline/%d", s), func() string {
+					face := family.Face(10.0, canvas.Black)
+					t := canvas.NewTextLine(face, txt, canvas.Left)
+					var out strings.Builder
+					t.WalkSpans(func(x, y float64, span canvas.TextSpan) {
+						fmt.Fprintf(&out, "%.6f,%.6f,%q,%.6f,", x, y, span.Text, span.Width)
+						for _, g := range span.Glyphs {
+							fmt.Fprintf(&out, "%d:%d ", g.ID, g.Cluster)
+						}
+					})
+					return out.String()
+				}}
+			})
+		}
+		if strings.Contains(kinds, "s") {
+			// distinct canvases written by the vector back-ends with default (nil) options; some jobs use the renderers' setters
+			fam = append(fam, func() Job {
+				p := randPoly(r, 8, 5)
+				backend, lossy := r.Intn(3), r.Intn(2) == 0
+				return Job{fmt.Sprintf("backend%d/%d", backend, s), func() string {
+					c := canvas.New(12, 12)
+					ctx := canvas.NewContext(c)
+					ctx.SetFillColor(canvas.Red)
+					ctx.DrawPath(1, 1, p)
+					img := image.NewRGBA(image.Rect(0, 0, 3, 2))
+					for i := range img.Pix {
+						img.Pix[i] = uint8(37*i + 11)
+					}
+					ctx.DrawImage(2, 2, img, canvas.DPMM(1.0))
+					var buf bytes.Buffer
+					switch backend {
+					case 0:
+						w := svg.New(&buf, 12, 12, nil)
+						if lossy {
+							w.SetImageEncoding(canvas.Lossy)
+						}
+						c.RenderTo(w)
+						w.Close()
+					case 1:
+						w := pdf.New(&buf, 12, 12, nil)
+						if lossy {
+							w.SetImageEncoding(canvas.Lossy)
+						}
+						c.RenderTo(w)
+						w.Close()
+					default:
+						w := ps.New(&buf, 12, 12, nil)
+						c.RenderTo(w)
+						w.Close()
+					}
+					out := reDate.ReplaceAll(buf.Bytes(), []byte("DATE")) // the creation time stamp is the only legitimate difference
+					h := fnv.New64a()
+					h.Write(out)
+					return fmt.Sprintf("%d:%x", len(out), h.Sum64())
 				}}
 			})
 		}
